@@ -226,6 +226,45 @@ def judge_line(ctx, srv, model, f, text, line1, col, klass, info, files, tag, de
                     (func_override[1], func_override[2]) if func_override else (fixture_scope_of(info) if info is not None else None)))
 
 
+def concurrent_offer(ctx, count):
+    """the set completion offers for a file is computed (and cached) by one request while an edit of the conftest (one
+    fixture added, one moved) completes on another thread; at quiescence the offered set is the one of the final contents"""
+    import json as _j
+    from ..vh import VH
+    from ..runner import vh_bin
+    from .c07 import CQ_CONF1, CQ_CONF2, CQ_TEST
+    D = "/vf_c18/pkg"
+    conf, test = f"{D}/conftest.py", f"{D}/test_t.py"
+    setup = [{"op": "analyze", "db": 0, "path": conf, "text": CQ_CONF1}, {"op": "analyze", "db": 0, "path": test, "text": CQ_TEST}]
+    threads = [[{"op": "analyze", "db": 0, "path": conf, "text": CQ_CONF2}],
+               [{"op": "available", "db": 0, "path": test}, {"op": "available", "db": 0, "path": test}],
+               [{"op": "available", "db": 0, "path": test}]]
+    after = [{"op": "available", "db": 0, "path": test, "observe": True}]
+    vh = VH(vh_bin(), locklog=os.path.join(ctx.scratch_root, "lock_vh_co.log"), env={"VERIF_SHARDS": "2"})
+    try:
+        cold = vh.call(op="sched_scenario", setup=setup, threads=threads, after=after, seed=0, count=1, sequential=[0, 1, 2])
+        want = None
+        for o in cold["outcomes"]:
+            v = _j.loads(o["index"].split(";;OBS=", 1)[-1])
+            want = sorted((a["name"], a["line"]) for a in v["available"])
+        if not want or ("extra", ) not in {(n_,) for n_, _ in want}:
+            raise Inconclusive(f"reference observation unusable: {want}")
+        for mode, pct in (("uniform", None), ("pct2", 2)):
+            r = vh.call(op="sched_scenario", setup=setup, threads=threads, after=after, seed=ctx.seed * 53 + 11, count=count, pct=pct, est=200, timeout=1800)
+            if "distinct_schedules" not in r:
+                raise Inconclusive(f"harness refused the scenario: {str(r)[:300]}")
+            ctx.judged(count)
+            for o in r["outcomes"]:
+                v = _j.loads(o["index"].split(";;OBS=", 1)[-1])
+                got = sorted((a["name"], a["line"]) for a in v["available"])
+                if got != want:
+                    ctx.violation({"kind": "offered-set-after-concurrent-edit-is-stale", "mode": mode},
+                                  {"seed": o["first_seed"], "count": o["count"], "offered": got, "final_contents": want})
+            ctx.nontrivial(("concurrent_offer", mode, r["distinct_schedules"] > 10))
+    finally:
+        vh.close()
+
+
 def run(ctx):
     quick = ctx.tier == "quick"
     n = 14 if quick else 500
@@ -235,6 +274,7 @@ def run(ctx):
     pinned(ctx)
     if os.environ.get("VERIF_ONLY_PINNED"):
         return
+    concurrent_offer(ctx, 300 if quick else 30000)
     for i in range(n):
         root = ctx.scratch(f"w{i}")
         ws = gen.gen_workspace(root, ctx.rng, depth=ctx.rng.randint(1, 2), venv=(i % 2 == 0), allow_imports=False,
@@ -255,9 +295,27 @@ def run(ctx):
             continue
         model = ws.model()
         f = ws.abs(rel)
-        srv = LSP(srv_bin(), root, locklog=os.path.join(ctx.scratch_root, "lock_srv.log"))
+        # with a workspace plugin: its entry module is already open in the editor when the start-up scan reaches the venv phase
+        early = ("workspace_plugin",) in ws.features
+        gate = ctx.scratch(f"gate{i}") if early else None
+        srv = LSP(srv_bin(), root, locklog=os.path.join(ctx.scratch_root, "lock_srv.log"),
+                  env=({"VERIF_SCAN_PHASE_GATE": gate} if early else None))
         try:
-            srv.initialize()
+            srv.initialize(wait_scan=not early)
+            if early:
+                import time as _t
+                t_end = _t.time() + 30
+                while not os.path.exists(os.path.join(gate, "phase2_done.reached")) and _t.time() < t_end:
+                    srv.pump(0.05)
+                if not os.path.exists(os.path.join(gate, "phase2_done.reached")):
+                    raise Inconclusive("phase failpoint not reached")
+                pm = ws.abs("wsplug/plugin_mod.py")
+                before = srv.seq
+                srv.did_open(pm, ws.files["wsplug/plugin_mod.py"])
+                srv.wait_diagnostics(pm, before, timeout=20)
+                open(os.path.join(gate, "phase2_done.go"), "w").close()
+                srv.wait_log("Workspace scan complete", 60)
+                ctx.nontrivial(("plugin_module_open_before_venv_phase",))
             srv.did_open(f, doc)
             classes = line_classes(doc)
             lines = doc.split("\n")
